@@ -18,6 +18,7 @@ import ParryModel.C08.Theorems12
 import ParryModel.C08.Theorems13
 import ParryModel.C08.Theorems14
 import ParryModel.C08.Theorems15
+import ParryModel.C08.Theorems16
 /-!
 # C08 property theorems: the QBVH stays valid under any history
 
